@@ -57,3 +57,16 @@ From AV Require Import Model.Src Gen.GenSrc Model.SrcShape.
 Theorem C11_source_close_once : close_shape_ok = true.
 Proof. vm_compute. reflexivity. Qed.
 Print Assumptions C11_source_close_once.
+
+From AV Require Import Model.FlagSem Proofs.FlagSemP.
+(* any number of threads calling close() on an open channel, statement by statement, EVERY
+   schedule: at most one of them sends Channel.Close (the test "is it open" and the move to
+   CLOSING being one step under the lock - C11_source_close_once above) *)
+Theorem C11_concurrent_close_at_most_once : forall n sched, (cl_sent (close_run true n sched) <= 1)%nat.
+Proof. exact close_at_most_once. Qed.
+Print Assumptions C11_concurrent_close_at_most_once.
+
+(* without that lock two closers both send (the defect repaired by fix 30ae445) *)
+Theorem C11_unlocked_close_refuted : exists sched, cl_sent (close_run false 2 sched) = 2%nat.
+Proof. exact unlocked_close_refuted. Qed.
+Print Assumptions C11_unlocked_close_refuted.
